@@ -674,6 +674,45 @@ def r10_7(prog, rep, rid="R10.7", which=("cut", "kept")):
             rep.ok(rid, key, f.loc(), "the byte behind a backslash takes part in what is written (6 escapes give 6 different outputs)")
 
 
+def r10_8(prog, rep, rid="R10.8"):
+    """Blank and TAB are both fold characters (RFC 5545 3.1): every byte that _ical_pull() compares with one of them is compared with
+    the other as well.  The puller asks twice — when it chops lines inside a piece and when it looks at the first byte of a new piece
+    to decide whether the line stashed from the last one goes on — and the two answers must agree, or a TAB fold is honoured inside a
+    piece and not across a boundary."""
+    f = prog.fn("_ical_pull", "evical.c")
+    cfg = f.cfg
+    asked = {}
+    for b, i, x, line in cfg.all_elems():
+        if not isinstance(x, dict):
+            continue
+        for q in walk(cfg.resolve(x)):
+            if q.get("k") == "bin" and q["op"] in ("==", "!="):
+                for me, other in ((q["l"], q["r"]), (q["r"], q["l"])):
+                    v = int_value(strip_casts(other))
+                    if v in (32, 9):
+                        asked.setdefault(show(strip_casts(me)), {}).setdefault(v, q.get("line", line))
+    for b in cfg.blocks:
+        c = cfg.cond(b)
+        for q in walk(c) if c is not None else ():
+            if q.get("k") == "bin" and q["op"] in ("==", "!="):
+                for me, other in ((q["l"], q["r"]), (q["r"], q["l"])):
+                    v = int_value(strip_casts(other))
+                    if v in (32, 9):
+                        asked.setdefault(show(strip_casts(cfg.resolve(me))), {}).setdefault(v, q.get("line"))
+    n = 0
+    for what, vs in sorted(asked.items()):
+        n += 1
+        key = "_ical_pull/fold-characters#%d" % n
+        if set(vs) == {32, 9}:
+            rep.ok(rid, key, f.loc(vs[32]), "`%s` is compared with the blank and with TAB" % what)
+        else:
+            have, miss = ("the blank", "TAB") if 32 in vs else ("TAB", "the blank")
+            rep.fail(rid, key, f.loc(next(iter(vs.values()))), "`%s` is compared with %s but not with %s: the other place that asks accepts both, so a line folded with "
+                     "%s goes on or ends depending on where the piece was cut" % (what, have, miss, miss))
+    if n < 2:
+        rep.broken_("rule=%s expected the two fold tests of _ical_pull, found %d" % (rid, n))
+
+
 def run(prog, rep, tier, snap):
     rep.rule("R10.1", "stash discipline: bounded stores in esccpy, cursor writes, subscripts, partial-line guard", 10)
     rep.call(r10_1, prog, rep)
@@ -690,6 +729,8 @@ def run(prog, rep, tier, snap):
     rep.call(r10_5, prog, rep)
     rep.rule("R10.7", "what the escape copier writes does not depend on where the line is cut", 7)
     rep.call(r10_7, prog, rep, "R10.7", ("cut",))
+    rep.rule("R10.8", "every byte the puller compares with a blank is compared with TAB as well (both fold a line)", 2)
+    rep.call(r10_8, prog, rep)
 READY = True
 
 # texts brought up to date with the rules above (they supersede the first versions at the top of the module)
@@ -697,3 +738,4 @@ LEVEL_TEXT = LEVEL_TEXT + (" The escape copier, walked value-fixed over all stri
                            "parts what it writes for the whole — it does not on the pinned tree (two known findings, one per class of byte in front "
                            "of the cut); chunking independence of the parser as a whole is NOT decided.")
 TECHNIQUE = TECHNIQUE + "; value-fixed walks of the escape copier over byte classes x cuts"
+LEVEL_TEXT = LEVEL_TEXT + " Every byte the puller compares with a blank is compared with TAB as well: the two places that ask whether a line is folded agree."
